@@ -23,6 +23,16 @@ ASSUMPTIONS = ["proto2 stub semantics (presence, defaults, MergeFrom, AttributeE
 EXPLANATION = "symbolic execution of the hand-written field mapping on symbolic field values with a descriptor-generated protobuf stub"
 
 
+def restore():
+    """undo conv(): the real protobuf classes back in place (other cases of the same worker process use them)"""
+    import yowsup.layers.protocol_messages.protocolentities.attributes.converter as C
+    import yowsup.layers.protocol_messages.proto.e2e_pb2 as e2e
+    import yowsup.layers.protocol_messages.proto.protocol_pb2 as proto
+    import yowsup.layers.protocol_messages.protocolentities.protomessage as PM
+    C.Message, C.ContextInfo, C.MessageKey, PM.Message = e2e.Message, e2e.ContextInfo, proto.MessageKey, e2e.Message
+    C.AttributesConverter._AttributesConverter__instance = None
+
+
 def conv(ctx):
     import yowsup.layers.protocol_messages.protocolentities.attributes.converter as C
     if H.sym(ctx):
